@@ -24,6 +24,12 @@ def ref_material(rng, name, condensed=False):
     if name == "neo_hooke_compressible":
         p = dict(mu=float(rng.uniform(0.5, 2)), lmbda=float(rng.uniform(1, 5)))
         return fem.NeoHookeCompressible(mu=p["mu"], lmbda=p["lmbda"]), OH.energy("neo_hooke_compressible", p), p
+    if name == "ogden_roxburgh":
+        # pseudo-elastic softening around a Neo-Hookean base: on the primary loading path (monotone ramp from the virgin state)
+        # the response is that of the base material
+        p = dict(mu=float(rng.uniform(0.5, 2)), bulk=float(rng.uniform(2, 10)))
+        um = fem.OgdenRoxburgh(fem.NeoHooke(mu=p["mu"], bulk=p["bulk"]), r=float(rng.uniform(1.5, 4)), m=float(rng.uniform(0.5, 2)), beta=float(rng.uniform(0, 0.3)))
+        return um, OH.energy("neo_hooke", p), p
     bulk = float(rng.uniform(5, 50))
     if name == "mooney_rivlin":
         p = dict(C10=float(rng.uniform(0.2, 1)), C01=float(rng.uniform(0.05, 0.4)), bulk=bulk)
@@ -42,7 +48,7 @@ def ref_material(rng, name, condensed=False):
     return iso & fem.Volumetric(bulk=bulk), W, p
 
 
-REF = ["neo_hooke", "neo_hooke_compressible", "mooney_rivlin", "yeoh", "ogden"]
+REF = ["neo_hooke", "neo_hooke_compressible", "mooney_rivlin", "yeoh", "ogden", "ogden_roxburgh"]
 # the tensortrax ogden model goes through tensortrax' eigvalsh, which perturbs C[0,0], C[1,1] by +-1.49e-8 (modelled, 100 x)
 REG = {"ogden": 100 * 1.4901161193847656e-08}
 
@@ -171,7 +177,7 @@ def case_curve(loadcase, fam, name, rep):
             else:
                 body = fem.SolidBody(umat, field)
             nsub = [1, 3, 7][rep % 3]
-            cyclic = rep % 4 == 3
+            cyclic = rep % 4 == 3 and name != "ogden_roxburgh"  # (the softening law equals its base on the primary path only)
             symflag = bool(rep % 2)
             if loadcase == "uniaxial":
                 axis = int(rng.integers(0, d))
@@ -524,11 +530,11 @@ def cases(tier, seed):
     for loadcase in ("uniaxial", "biaxial"):
         fams = list(CURVE_FAMS)
         for fam in fams:
-            for name in (REF if tier == "thorough" else [REF[k % 5]]):
+            for name in (REF if tier == "thorough" else [REF[k % len(REF)]]):
                 for rep in range(reps * (2 if tier == "thorough" else 1)):
                     out.append(("curve:%s:%s:%s:%d" % (loadcase, fam, name, rep), case_curve(loadcase, fam, name, rep + k)))
                 k += 1
-    for name in REF:
+    for name in REF[:5]:  # (the pseudo-elastic law is driven in the views of its base law, on monotone stretch lists)
         for rep in range(reps):
             out.append(("view:%s:%d" % (name, rep), case_view(name, rep)))
     for rep in range(2 if tier == "quick" else 6):
